@@ -6,7 +6,7 @@ ID = "C27"
 THEOREMS = [
     "C27_status_pointwise", "C27_status_eq_partial",
     "C27_sha256_refuted", "C27_ita_refuted", "C27_filemode_refuted", "C27_staged_delete_refuted",
-    "C27_typechange_refuted", "C27_samestat_refuted",
+    "C27_typechange_refuted", "C27_samestat_refuted", "C27_info_exclude_refuted",
     "C27_shortcut_sound_partial", "C27_shortcut_sound_refuted",
 ]
 MODEL_FILES = ["Status.v"]
